@@ -50,7 +50,7 @@
 ; ---- io/fs, path (slash paths) ----
 (declare-fun validPath (String) Bool)            ; io/fs.ValidPath
 (declare-fun containsAny (String String) Bool)   ; strings.ContainsAny
-(declare-fun Index (String String) Int)          ; strings.Index
+(define-fun Index ((s String) (t String)) Int (str.indexof s t 0))   ; strings.Index (first occurrence, -1 if none)
 (declare-fun ToLower (String) String)
 ; climbs c : the cleaned relative path c starts with a ".." segment
 (define-fun climbs ((c String)) Bool (or (= c "..") (str.prefixof "../" c)))
@@ -62,3 +62,23 @@
 ; representation invariant of LocalSource.relPath: exactly the strings ParseLocalSource accepts
 (define-fun localOK ((p String)) Bool
   (and (not (containsAny p ":\u{5c}")) (or (str.prefixof "./" p) (str.prefixof "../" p)) (= (localFix (Clean p)) p)))
+
+; ---- net/url, regexp (opaque values with lemma-defined semantics) ----
+(declare-const anyKey String)                   ; an arbitrary map key (skolem constant for "for all keys")
+(declare-fun queryMap (String) Int)             ; (*url.URL).Query(): handle of the parsed query map, a function of RawQuery
+(declare-fun escapedPath (String String) String) ; (*url.URL).EscapedPath() as a function of Path and RawPath
+(declare-fun encodeQuery (Int) String)          ; url.Values.Encode(): abstract, a function of the map handle (and its content at the call)
+(declare-fun numSubexp (Int) Int)               ; (*regexp.Regexp).NumSubexp
+(declare-fun reMatches (Int String) Bool)
+(declare-fun reGroup (Int String Int) String)
+(declare-fun urlString (Int) String)            ; placeholder: printed URL of a url.URL object id
+
+; ---- spec of the sub-path splitter shared by go-slug's splitSubPath and regaddr's sourceDirSubdir ----
+(define-fun spStop ((s String)) Int (ite (> (Index s "?") (- 1)) (Index s "?") (str.len s)))
+(define-fun spOff ((s String)) Int (ite (> (Index (str.substr s 0 (spStop s)) "://") (- 1)) (+ (Index (str.substr s 0 (spStop s)) "://") 3) 0))
+(define-fun spHasSub ((s String)) Bool (not (= (Index (str.substr s (spOff s) (- (spStop s) (spOff s))) "//") (- 1))))
+
+; ---- strings.TrimSpace (ASCII white space; strings are assumed valid UTF-8 and other Unicode spaces are not modelled) ----
+(define-fun reSpace () RegLan (re.union (str.to_re " ") (str.to_re "\u{9}") (str.to_re "\u{a}") (str.to_re "\u{b}") (str.to_re "\u{c}") (str.to_re "\u{d}")))
+(define-fun allSpace ((s String)) Bool (str.in_re s (re.* reSpace)))
+(define-fun isSpaceCode ((c Int)) Bool (or (= c 32) (and (>= c 9) (<= c 13))))
